@@ -189,13 +189,20 @@ def r_rule_params_eval(root):
                 occurs, carriage return iff \\r, tab iff \\t, blank iff a blank occurs; without a backslash the string itself."""
     from sa import pyeval
     out = []; inst = 0
-    fn = find_i(root, L, "TextXVisitor.visit_rule_params")
+    fn = find_i(root, L, "TextXVisitor.visit_rule_params"); fn1 = find(load(root, L), "TextXVisitor.visit_rule_param")
+    p1 = [a_.arg for a_ in fn1.args.args]; pN = [a_.arg for a_ in fn.args.args]
     STR = ["", " ", "a", "\\n", "\\r", "\\t", "\\r\\n", "\\n\\r", " \\t\\r\\n", "\\t ", "\\n "]
+    visitor = {".kind": "visitor", ".debug": False, ".grammar_parser": {".pos_to_linecol": pyeval.PyFn(lambda p_: (1, p_)), ".debug": False}, ".metamodel": {".file_name": "g.tx"}}
     for name in ("skipws", "ws", "split", "other"):
         for value in [True, False] + STR:
             inst += 1
-            env = {"children": [[name, value]], "__module__": load(root, L), "__functions__": {k_: v_ for k_, v_ in helper_functions(root, L, "TextXVisitor.visit_rule_params").items() if k_.startswith("_") and not k_.startswith("__")}}
+            base_env = {"__module__": load(root, L), "__functions__": {k_: v_ for k_, v_ in helper_functions(root, L, "TextXVisitor.visit_rule_params").items() if k_.startswith("_") and not k_.startswith("__")}}
             try:
+                # the pipeline of the two visitors, as the parse tree is visited: one rule_param node ([name] / ['no'+name] / [name, value]) -> the pair -> the table
+                kids1 = [name, value] if isinstance(value, str) else [name if value else "no" + name]
+                env1 = dict(base_env); env1.update({p1[0]: visitor, p1[1]: {".kind": "node", ".position": 0}, p1[2]: kids1})
+                pair = pyeval.run_block(fn1.body, env1)
+                env = dict(base_env); env.update({pN[0]: visitor, pN[1]: {".kind": "node", ".position": 0}, pN[2]: [pair]})
                 res = ("ret", pyeval.run_block(fn.body, env))
             except pyeval.Raised as r: res = ("raise", r.cls)
             except pyeval.Unsupported as e: raise AnalysisError("visit_rule_params: outside the evaluated subset: %s" % e)
